@@ -24,6 +24,7 @@ OBLIGATIONS = [
     (P + "framing_roundtrip_http", "HTTP: from the state set_response_headers prepared, every call sequence of a finalized response: no violation, RFC 7230 client reads exactly one head and body = concat inputs (Content-Length / chunked / until-close)"),
     (P + "framing_roundtrip_fcgi", "FastCGI: records parse to a STDOUT stream = exactly the header block ++ concat inputs"),
     (P + "framing_roundtrip_scgi", "SCGI/CGI: header block once, then the inputs"),
+    (P + "header_block_once_xcgi", "SCGI/FastCGI: the block built from the header set (clean lines) is exactly one header block: map entries, added headers/cookies, blank line"),
     (P + "client_sees_app_bytes", "composition device -> framing -> connection for every schedule: wire de-frames to one head and body = bytes written"),
     (P + "client_sees_app_bytes_gzip_cached", "full chain gzip_buf -> copy_buf -> device -> framing -> connection: inflate body = app bytes, cached copy = body sent"),
     (P + "gzip_bookkeeping", "gzip_buf, any deflater/buffer size: deflater inputs in order = app bytes, Z_FINISH exactly once and last, bytes passed on = deflater outputs; inflate hypothesis => body decompresses to app bytes"),
